@@ -268,3 +268,6 @@ func durOf(d *time.Duration) time.Duration {
 	}
 	return *d
 }
+
+// isAnyDaemonPod: carries the name label of some ExtendedDaemonSet.
+func isAnyDaemonPod(p *corev1.Pod) bool { return p.Labels[edsv1.ExtendedDaemonSetNameLabelKey] != "" }
